@@ -142,12 +142,16 @@ m("C02", "proof",
   "source file, no call raised, no fault callback (uses C07, C09 chunk-length independence of the checksum, "
   "C17). C02_end_to_end_ack: the same composition in ACKNOWLEDGED mode including the closing handshake "
   "(ACK(EOF), Finished, ACK(Finished) routed between the two models): both idle, file byte-identical, one "
-  "successful Transaction-Finished indication on each side, no fault callback, no exception. Arbitrary fair "
-  "pacing (several PDUs queued per call, idle calls in between) is explored (implementation and model), not "
-  "proved.",
+  "successful Transaction-Finished indication on each side, no fault callback, no exception. PACING: "
+  "C02_dest_empty_call_noop / C02_source_empty_call_noop — a state_machine() call without a PDU, with nothing "
+  "left to retrieve and no timer run out (QuietD / QuietS), changes nothing at all, in every step in which a "
+  "handler waits; hence the composed theorems, stated for one call per PDU, hold for every pacing that inserts "
+  "empty calls anywhere. Several PDUs handed over between two retrievals are explored (implementation and "
+  "model), not proved.",
   "Lean 4 theorems by induction over tiles + forward simulation of the closing handshake (composition of C07 "
   "and the receiver model) + exploration of pacing",
-  "§6 C02, §11", ["arbitrary fair pacing is exploration-level; the composed theorems use the one-PDU-per-call schedule"])
+  "§6 C02, §11", ["the composed theorems use one call per PDU plus arbitrary empty calls (no-op theorems); "
+                  "several PDUs between two retrievals are exploration-level"])
 m("C03", "other",
   "acknowledged-mode end-to-end sessions with K in 1..3 faults (drop, duplicate, delay/reorder of any PDU in "
   "either direction) and all expiration limits > K; after the faults the link is quiet and timers keep "
